@@ -289,6 +289,20 @@ def real_stereo_tables(mol):
         return _err(ex)
 
 
+def inequivalent_elements(mol):
+    """hypothesis of theorem `chiral_full_is_atoms_order_of_inequivalent_elements`, evaluated on the real molecule: the
+    labelled tetrahedral atoms, the labelled double bonds (key = smaller terminal class) and the labelled allene centres
+    have pairwise different grouping keys in `atoms_order`"""
+    ao = mol.atoms_order
+    tet = set(mol.tetrahedrons)
+    t = [ao[n] for n, a in mol._atoms.items() if a._stereo is not None and n in tet]
+    al = [ao[n] for n, a in mol._atoms.items() if a._stereo is not None and n not in tet]
+    term = mol._stereo_cis_trans_terminals
+    pairs = {term[n] for n, mb in mol._bonds.items() if any(b._stereo is not None for b in mb.values())}
+    ct = [min(ao[a], ao[b]) for a, b in pairs]
+    return all(len(set(x)) == len(x) for x in (t, al, ct))
+
+
 def pi_kind(mol):
     """which kinds of labels a molecule carries (distribution tag of the `cfull` stream)"""
     try:
@@ -418,6 +432,18 @@ def k_streams(ctx):
                 pk = pi_kind(m)
                 if exp.startswith('ok') and exp != real_order(m):
                     pk += ':classes-split-by-configuration'
+                try:
+                    ineq = exp.startswith('ok') and inequivalent_elements(m)
+                except Exception:  # noqa
+                    ineq = False
+                if ineq:
+                    # the theorem's claim, checked on the REAL code: pairwise inequivalent elements => = atoms_order
+                    ctx.count(('theorem-inequivalent-elements', line), True)
+                    ctx.dist('cfull:elements-pairwise-inequivalent (theorem: = atoms_order, invariant)')
+                    if exp != real_order(m):
+                        ctx.cov['disagreements_checked'] += 1
+                        ctx.broke('relational', 'chiral_full_is_atoms_order_of_inequivalent_elements vs the real _chiral_morgan',
+                                  f'{vname}: labelled elements pairwise inequivalent but _chiral_morgan != atoms_order; wire {line[:300]}')
                 line = 'cfull' + line[len('cmorgan'):]
                 add('cfull', line, exp, line, len(m) >= 2, (vname, pk))
             if any(b.order == 2 for _, _, b in m.bonds()):
